@@ -331,7 +331,7 @@ func (b *TB) build(v ssa.Value) *Term {
 	case *ssa.MakeChan:
 		return &Term{Op: "make", Name: "chan@" + v.Name()}
 	case *ssa.MakeClosure:
-		t := &Term{Op: "closure", Name: funcName(v.Fn.(*ssa.Function))}
+		t := &Term{Op: "closure", Name: funcName(v.Fn.(*ssa.Function)), V: v}
 		return t
 	case *ssa.Next:
 		return &Term{Op: "next", Name: "iter", Args: []*Term{b.Of(v.Iter)}}
